@@ -861,6 +861,9 @@ class InterpBase:
             m = self.value_method(obj, name)
             if m is not None:
                 return m
+        if isinstance(obj, VFunc) and name == '__get__':
+            # descriptor protocol of plain functions: f.__get__(instance, owner) is the method bound to instance
+            return VModel('function.__get__', lambda ex_, a, k, f=obj: VBound(f, a[0]))
         if isinstance(obj, VFunc) and name == '__func__':
             return obj
         if isinstance(obj, VBound) and name == '__func__':
